@@ -53,7 +53,11 @@ def closure_calls_only(facts, v, rx):
             g = facts.fns.get(x[1])
             if g is not None:
                 cs = [call_name(t) for bb, t in g.calls()]
-                if cs and all(re.search(rx, c) for c in cs):
+                # ... and what the closure answers is that call's answer: no other test is or-ed / and-ed with it (the body has no branch)
+                straight = not any(t["t"] == "switch" for t in (g.term(b) for b in range(g.n) if not g.blocks[b]["cleanup"]))
+                o = g.origin_place({"l": 0, "p": []})
+                direct = o[0] == "call" and re.search(rx, o[1]) is not None
+                if cs and all(re.search(rx, c) for c in cs) and straight and direct:
                     return True
         if x and x[0] == "const" and len(x) > 3 and x[3] and re.search(rx, x[3]):
             return True
